@@ -451,3 +451,17 @@ def direct_field(b, op):
         return None
     fs = place_fields(pl)
     return fs[-1] if fs else None
+
+
+def effects_in(b, blocks):
+    """side effects in the given blocks: calls (method names) and stores through references/fields of
+    non-temporary places: [('call', name, span) | ('store', place-expr, span)]"""
+    out = []
+    for x in blocks:
+        for st in b.stmts(x):
+            if st["k"] == "assign" and st["lhs"]["p"] and st["lhs"]["p"][0] == "*":
+                out.append(("store", b.expr(st["lhs"]), st["span"]))
+        t = b.term(x)
+        if t["k"] == "call":
+            out.append(("call", callee_method(t) or str(callee_def(t)), t["span"]))
+    return out
